@@ -1,4 +1,5 @@
 import Neutrino.Props.C07
+import Neutrino.Props.C07Trans
 open Neutrino.Store
 #print axioms C07_refines
 #print axioms C07_refines_history
@@ -14,3 +15,7 @@ open Neutrino.Store
 #print axioms C07_ancestors
 #print axioms C07_locator
 #print axioms C07_reads_source_shape
+#print axioms Neutrino.Store.C07_trans_FetchHeaderAncestors
+#print axioms Neutrino.Store.C07_trans_ancestors
+#print axioms Neutrino.Store.C07_trans_FetchFilterHeaderAncestors
+#print axioms Neutrino.Store.C07_trans_readHeadersFromFile
